@@ -26,7 +26,8 @@ type Mutant struct {
 	File   string `json:"file"` // relative to repo root
 	Old    string `json:"old"`
 	New    string `json:"new"`
-	Expect string `json:"expect"` // substring of the violated obligation key
+	Expect string `json:"expect"`          // substring of the violated obligation key
+	Patch  string `json:"patch,omitempty"` // alternatively: a unified diff (absolute path) applied to copies of the files it touches
 }
 
 func MutantOverlay(path string) (map[string][]byte, error) {
@@ -38,6 +39,9 @@ func MutantOverlay(path string) (map[string][]byte, error) {
 	if err := json.Unmarshal(b, &m); err != nil {
 		return nil, err
 	}
+	if m.Patch != "" {
+		return patchOverlay(m.Patch)
+	}
 	abs := filepath.Join(engine.RepoDir(), m.File)
 	src, err := os.ReadFile(abs)
 	if err != nil {
@@ -47,6 +51,54 @@ func MutantOverlay(path string) (map[string][]byte, error) {
 		return nil, fmt.Errorf("fragment occurs %d times in %s (need exactly 1)", n, m.File)
 	}
 	return map[string][]byte{abs: bytes.Replace(src, []byte(m.Old), []byte(m.New), 1)}, nil
+}
+
+// patchOverlay applies a stored seeded change (unified diff, paths relative to the repo root) to
+// copies of the files it touches and returns them as an overlay. /repo itself is never written.
+func patchOverlay(patch string) (map[string][]byte, error) {
+	pb, err := os.ReadFile(patch)
+	if err != nil {
+		return nil, err
+	}
+	var files []string
+	for _, ln := range strings.Split(string(pb), "\n") {
+		if strings.HasPrefix(ln, "+++ b/") {
+			files = append(files, strings.TrimSpace(strings.TrimPrefix(ln, "+++ b/")))
+		}
+	}
+	if len(files) == 0 {
+		return nil, fmt.Errorf("no files in patch")
+	}
+	tmp, err := os.MkdirTemp("", "idenalint-patch")
+	if err != nil {
+		return nil, err
+	}
+	defer os.RemoveAll(tmp)
+	for _, f := range files {
+		src, err := os.ReadFile(filepath.Join(engine.RepoDir(), f))
+		if err != nil {
+			return nil, fmt.Errorf("patched file missing: %s", f)
+		}
+		dst := filepath.Join(tmp, f)
+		os.MkdirAll(filepath.Dir(dst), 0o755)
+		if err := os.WriteFile(dst, src, 0o644); err != nil {
+			return nil, err
+		}
+	}
+	cmd := exec.Command("patch", "-p1", "-s", "-f", "--no-backup-if-mismatch", "-i", patch)
+	cmd.Dir = tmp
+	if out, err := cmd.CombinedOutput(); err != nil {
+		return nil, fmt.Errorf("patch does not apply to the current tree (%s)", strings.TrimSpace(strings.Split(string(out), "\n")[0]))
+	}
+	ov := map[string][]byte{}
+	for _, f := range files {
+		b, err := os.ReadFile(filepath.Join(tmp, f))
+		if err != nil {
+			return nil, err
+		}
+		ov[filepath.Join(engine.RepoDir(), f)] = b
+	}
+	return ov, nil
 }
 
 // RunWitnesses runs every mutant of the property in a subprocess (own memory) and records
@@ -60,6 +112,18 @@ func RunWitnesses(id string, r *engine.Report, vdir string) {
 	if err := json.Unmarshal(b, &ms); err != nil {
 		r.Errorf("witnesses/%s.json: %v", id, err)
 		return
+	}
+	// the stored seeded changes of this property (seeded/<id>-seedN/patch.diff) are replayed as
+	// mutants too: any violation of one of the property's own rules counts
+	if dirs, _ := filepath.Glob(filepath.Join(vdir, "seeded", id+"-seed*", "patch.diff")); len(dirs) > 0 && os.Getenv("VERIF_NO_SEED_REPLAY") == "" {
+		sort.Strings(dirs)
+		for _, d := range dirs {
+			name := "seeded change " + filepath.Base(filepath.Dir(d))
+			if mb, err := os.ReadFile(filepath.Join(filepath.Dir(d), "meta.json")); err == nil && bytes.Contains(mb, []byte(`"detected_by_check": false`)) {
+				name += " (recorded miss, DESIGN 4.3)"
+			}
+			ms = append(ms, Mutant{Name: name, Patch: d, Expect: id})
+		}
 	}
 	exe, err := os.Executable()
 	if err != nil {
